@@ -68,10 +68,13 @@ Definition PInv (n : nat) (s : st) (p r : nat) : Prop :=
   ((r = p /\ p <= n /\ g_prog s = rest RecThenPub n p) \/
    (r = S p /\ p < n /\ g_prog s = Pub p :: rest RecThenPub n (S p))).
 
+Lemma own_app a b : own (a ++ b) = own a ++ own b.
+Proof. unfold own. apply flat_map_app. Qed.
+
 Definition SInv (p r : nat) (x : sub) : Prop :=
   (s_pc x = 0 /\ s_live x = None /\ s_hist x = None /\ s_out x = []) \/
-  (s_pc x = 1 /\ exists q, q <= p /\ s_live x = Some (seq q (p - q)) /\ s_hist x = None /\ s_out x = []) \/
-  (2 <= s_pc x /\ exists q h, q <= p /\ h <= r /\ s_live x = Some (seq q (p - q)) /\
+  (s_pc x = 1 /\ exists q l, q <= p /\ s_live x = Some l /\ own l = seq q (p - q) /\ s_hist x = None /\ s_out x = []) \/
+  (2 <= s_pc x /\ exists q h l, q <= p /\ h <= r /\ s_live x = Some l /\ own l = seq q (p - q) /\
                  s_hist x = Some (seq 0 h) /\ s_out x = seq 0 (Nat.max h q)).
 
 Definition Inv (n : nat) (s : st) : Prop :=
@@ -79,35 +82,50 @@ Definition Inv (n : nat) (s : st) : Prop :=
 
 Lemma SInv_rec p r x : SInv p r x -> SInv p (S r) x.
 Proof.
-  intros [H|[H|[Hpc (q & h & Hq & Hh & Hl & Hs & Ho)]]]; [left; exact H | right; left; exact H|].
-  right; right. split; [exact Hpc|]. exists q, h. repeat split; auto.
+  intros [H|[H|[Hpc (q & h & l & Hq & Hh & Hl & Ho & Hs & Hout)]]]; [left; exact H | right; left; exact H|].
+  right; right. split; [exact Hpc|]. exists q, h, l. repeat split; auto.
 Qed.
 
-Lemma SInv_pub p r x : SInv p r x -> SInv (S p) r (deliver None p x).
+Lemma SInv_pub p r x : SInv p r x -> SInv (S p) r (deliver None (Some p) x).
 Proof.
-  intros [(Hpc & Hl & Hh & Ho)|[(Hpc & q & Hq & Hl & Hh & Ho)|(Hpc & q & h & Hq & Hh & Hl & Hs & Ho)]].
+  intros [(Hpc & Hl & Hh & Ho)|[(Hpc & q & l & Hq & Hl & Hown & Hh & Ho)|(Hpc & q & h & l & Hq & Hh & Hl & Hown & Hs & Ho)]].
   - left. unfold deliver. rewrite Hl. auto.
   - right; left. unfold deliver. rewrite Hl. cbn [push_live s_pc s_live s_hist s_out].
-    split; [exact Hpc|]. exists q. repeat split; auto.
-    f_equal. replace (S p - q) with (S (p - q)) by lia. rewrite <- seq_snoc. f_equal. f_equal. lia.
+    split; [exact Hpc|]. exists q, (l ++ [Some p]). repeat split; auto.
+    rewrite own_app, Hown. cbn [own flat_map app]. replace (S p - q) with (S (p - q)) by lia.
+    rewrite <- seq_snoc. f_equal. f_equal. lia.
   - right; right. unfold deliver. rewrite Hl. cbn [push_live s_pc s_live s_hist s_out].
-    split; [exact Hpc|]. exists q, h. repeat split; auto.
-    f_equal. replace (S p - q) with (S (p - q)) by lia. rewrite <- seq_snoc. f_equal. f_equal. lia.
+    split; [exact Hpc|]. exists q, h, (l ++ [Some p]). repeat split; auto.
+    rewrite own_app, Hown. cbn [own flat_map app]. replace (S p - q) with (S (p - q)) by lia.
+    rewrite <- seq_snoc. f_equal. f_equal. lia.
+Qed.
+
+(* a frame of another stream on the shared channel changes nothing a subscriber of this stream will deliver *)
+Lemma SInv_oth p r x : SInv p r x -> SInv p r (deliver None None x).
+Proof.
+  intros [(Hpc & Hl & Hh & Ho)|[(Hpc & q & l & Hq & Hl & Hown & Hh & Ho)|(Hpc & q & h & l & Hq & Hh & Hl & Hown & Hs & Ho)]].
+  - left. unfold deliver. rewrite Hl. auto.
+  - right; left. unfold deliver. rewrite Hl. cbn [push_live s_pc s_live s_hist s_out].
+    split; [exact Hpc|]. exists q, (l ++ [None]). repeat split; auto.
+    rewrite own_app, Hown. cbn [own flat_map app]. apply app_nil_r.
+  - right; right. unfold deliver. rewrite Hl. cbn [push_live s_pc s_live s_hist s_out].
+    split; [exact Hpc|]. exists q, h, (l ++ [None]). repeat split; auto.
+    rewrite own_app, Hown. cbn [own flat_map app]. apply app_nil_r.
 Qed.
 
 Lemma SInv_sub p r x : p <= r -> SInv p r x -> SInv p r (sub_step okc (seq 0 r) x).
 Proof.
-  intros Hpr [(Hpc & Hl & Hh & Ho)|[(Hpc & q & Hq & Hl & Hh & Ho)|(Hpc & q & h & Hq & Hh & Hl & Hs & Ho)]];
+  intros Hpr [(Hpc & Hl & Hh & Ho)|[(Hpc & q & l & Hq & Hl & Hown & Hh & Ho)|(Hpc & q & h & l & Hq & Hh & Hl & Hown & Hs & Ho)]];
     unfold sub_step; cbn [okc code_cfg c_s c_f].
   - rewrite Hpc. right; left. cbn [do_subscribe s_pc s_live s_hist s_out]. split; [lia|].
-    exists p. repeat split; auto. replace (p - p) with 0 by lia. reflexivity.
+    exists p, []. repeat split; auto. replace (p - p) with 0 by lia. reflexivity.
   - rewrite Hpc. right; right. cbn [do_snapshot s_pc s_live s_hist s_out]. split; [lia|].
-    exists q, r. repeat split; auto. f_equal. lia.
+    exists q, r, l. repeat split; auto. f_equal. lia.
   - destruct (s_pc x) as [|[|k]] eqn:E; [lia|lia|].
     right; right. unfold do_drain. rewrite Hl, Hs. cbn [s_pc s_live s_hist s_out]. split; [lia|].
-    exists p, h. repeat split; auto.
+    exists p, h, []. repeat split; auto.
     + replace (p - p) with 0 by lia. reflexivity.
-    + rewrite Ho. apply drain_seq. exact Hq.
+    + rewrite Ho, Hown. apply drain_seq. exact Hq.
 Qed.
 
 Lemma Inv_init n m : Inv n (init okc n m).
@@ -120,7 +138,7 @@ Qed.
 
 Lemma Inv_step n s a : Inv n s -> Inv n (step okc s a).
 Proof.
-  intros (p & r & (Hh & HP) & HS). destruct a as [|i].
+  intros (p & r & (Hh & HP) & HS). destruct a as [|i|].
   - (* producer *)
     destruct HP as [(Hr & Hp & Hg)|(Hr & Hp & Hg)].
     + destruct (Nat.eq_dec p n) as [->|Hne].
@@ -137,6 +155,9 @@ Proof.
     exists p, r. cbn [step g_prog g_hist g_subs]. split; [split; [exact Hh|exact HP]|].
     rewrite Hh. apply Forall_upd_nth; [|exact HS]. intros x. apply SInv_sub.
     destruct HP as [(Hr & _)|(Hr & _)]; lia.
+  - (* another stream's frame on the shared channel *)
+    exists p, r. cbn [step g_prog g_hist g_subs]. split; [split; [exact Hh|exact HP]|].
+    cbn [okc code_cfg c_cap]. apply Forall_map. eapply Forall_impl; [|exact HS]. intros x. apply SInv_oth.
 Qed.
 
 Lemma Inv_run n sched : forall s, Inv n s -> Inv n (run okc sched s).
@@ -164,9 +185,9 @@ Proof.
   destruct (PInv_published _ _ _ _ HP) as (Hpub & Hr & Hp & Hend).
   apply nth_error_In in Hn. rewrite Forall_forall in HS. specialize (HS x Hn).
   unfold attached in Ha. apply Nat.leb_le in Ha.
-  destruct HS as [(Hpc & _)|[(Hpc & _)|(Hpc & q & h & Hq & Hh & Hl & Hs & Ho)]]; [lia|lia|].
+  destruct HS as [(Hpc & _)|[(Hpc & _)|(Hpc & q & h & l & Hq & Hh & Hl & Hown & Hs & Ho)]]; [lia|lia|].
   exists (Nat.max h p). unfold delivered, do_drain. rewrite Hl, Hs. cbn [okc code_cfg c_f s_out].
-  rewrite Ho. split; [apply drain_seq; exact Hq|]. rewrite Hpub. split; [lia|]. split; [lia|].
+  rewrite Ho, Hown. split; [apply drain_seq; exact Hq|]. rewrite Hpub. split; [lia|]. split; [lia|].
   intros E. specialize (Hend E). lia.
 Qed.
 
@@ -191,7 +212,7 @@ Proof.
   destruct (Inv_run n sched _ (Inv_init n m)) as (p & r & HP & HS).
   destruct (PInv_published _ _ _ _ HP) as (_ & Hr & Hp & _).
   apply nth_error_In in Hn. rewrite Forall_forall in HS. specialize (HS x Hn).
-  destruct HS as [(_ & _ & _ & Ho)|[(_ & q & _ & _ & _ & Ho)|(_ & q & h & Hq & Hh & _ & _ & Ho)]].
+  destruct HS as [(_ & _ & _ & Ho)|[(_ & q & l & _ & _ & _ & _ & Ho)|(_ & q & h & l & Hq & Hh & _ & _ & _ & Ho)]].
   - exists 0. rewrite Ho. split; [reflexivity|lia].
   - exists 0. rewrite Ho. split; [reflexivity|lia].
   - exists (Nat.max h q). split; [exact Ho|lia].
@@ -218,13 +239,18 @@ Proof.
   destruct i as [|j]; cbn [upd_nth existsb]; [rewrite Hf; reflexivity|rewrite IH; reflexivity].
 Qed.
 
+Lemma any_lag_map c k l : existsb s_lag l = true -> existsb s_lag (map (deliver (c_cap c) k) l) = true.
+Proof.
+  intros H. apply existsb_exists in H. destruct H as (x & Hx & Hl). apply existsb_exists.
+  exists (deliver (c_cap c) k x). split; [apply in_map, Hx|apply deliver_lag, Hl].
+Qed.
+
 Lemma any_lag_step c s a : any_lag s = true -> any_lag (step c s a) = true.
 Proof.
-  unfold any_lag. intros H. destruct a as [|i]; cbn [step].
-  - destruct (g_prog s) as [|[k|k] r]; cbn [g_subs]; try exact H.
-    apply existsb_exists in H. destruct H as (x & Hx & Hl). apply existsb_exists.
-    exists (deliver (c_cap c) k x). split; [apply in_map, Hx|apply deliver_lag, Hl].
+  unfold any_lag. intros H. destruct a as [|i|]; cbn [step].
+  - destruct (g_prog s) as [|[k|k] r]; cbn [g_subs]; try exact H. apply any_lag_map, H.
   - cbn [g_subs]. rewrite existsb_upd_nth; [exact H|]. intros x. apply sub_step_lag.
+  - cbn [g_subs]. apply any_lag_map, H.
 Qed.
 
 Lemma any_lag_run c sched : forall s, any_lag s = true -> any_lag (run c sched s) = true.
@@ -238,16 +264,23 @@ Proof.
   destruct (Nat.ltb (length q) cap); [reflexivity|]. cbn [s_lag]. rewrite orb_true_r. discriminate.
 Qed.
 
+Lemma map_deliver_cap_eq cap k l :
+  existsb s_lag (map (deliver (Some cap) k) l) = false -> map (deliver (Some cap) k) l = map (deliver None k) l.
+Proof.
+  intros H. apply map_ext_in. intros x Hx. apply deliver_cap_eq.
+  destruct (s_lag (deliver (Some cap) k x)) eqn:E; [|reflexivity].
+  exfalso. assert (existsb s_lag (map (deliver (Some cap) k) l) = true) as Hc.
+  { apply existsb_exists. exists (deliver (Some cap) k x). split; [apply in_map, Hx|exact E]. }
+  rewrite Hc in H. discriminate.
+Qed.
+
 Lemma step_cap_eq c cap s a :
   any_lag (step (with_cap c (Some cap)) s a) = false -> step (with_cap c (Some cap)) s a = step (with_cap c None) s a.
 Proof.
-  destruct a as [|i]; cbn [step]; [|reflexivity].
-  destruct (g_prog s) as [|[k|k] r]; try reflexivity. unfold any_lag. cbn [g_subs with_cap mk c_cap]. intros H.
-  f_equal. apply map_ext_in. intros x Hx. apply deliver_cap_eq.
-  destruct (s_lag (deliver (Some cap) k x)) eqn:E; [|reflexivity].
-  exfalso. assert (existsb s_lag (map (deliver (Some cap) k) (g_subs s)) = true) as Hc.
-  { apply existsb_exists. exists (deliver (Some cap) k x). split; [apply in_map, Hx|exact E]. }
-  change (c_cap (with_cap c (Some cap))) with (Some cap) in H. rewrite Hc in H. discriminate.
+  destruct a as [|i|]; cbn [step]; [|reflexivity|].
+  - destruct (g_prog s) as [|[k|k] r]; try reflexivity. unfold any_lag. cbn [g_subs with_cap mk c_cap]. intros H.
+    f_equal. apply map_deliver_cap_eq, H.
+  - unfold any_lag. cbn [g_subs with_cap mk c_cap]. intros H. f_equal. apply map_deliver_cap_eq, H.
 Qed.
 
 Lemma run_cons c a l s : run c (a :: l) s = run c l (step c s a).
@@ -265,11 +298,12 @@ Proof.
   rewrite <- (step_cap_eq c cap s a Hs). apply IH. exact H.
 Qed.
 
-(* a stream of at most `cap` frames never lags, whatever the orders and the schedule *)
-Definition LInv (n : nat) (s : st) : Prop :=
-  count_pub (g_prog s) <= n /\
+(* a receiver never holds more than (frames of the stream) + (foreign frames on the shared channel): if that fits
+   the capacity nothing lags, whatever the orders and the schedule *)
+Definition LInv (b : nat) (s : st) : Prop :=
+  count_pub (g_prog s) <= b /\
   Forall (fun x => s_lag x = false /\
-                   match s_live x with Some q => length q + count_pub (g_prog s) <= n | None => True end) (g_subs s).
+                   match s_live x with Some q => length q + count_pub (g_prog s) <= b | None => True end) (g_subs s).
 
 Lemma sub_step_len c h x k n :
   match s_live x with Some q => length q + k <= n | None => True end -> k <= n ->
@@ -281,19 +315,42 @@ Proof.
     destruct (s_hist x); [cbn [s_live length]; lia|rewrite El; exact Hq].
 Qed.
 
-Lemma LInv_step c cap n s a : n <= cap -> c_cap c = Some cap -> LInv n s -> LInv n (step c s a).
+Lemma LInv_deliver cap b k kp x : b <= cap ->
+  (s_lag x = false /\ match s_live x with Some q => length q + S kp <= b | None => True end) ->
+  s_lag (deliver (Some cap) k x) = false /\
+  match s_live (deliver (Some cap) k x) with Some q => length q + kp <= b | None => True end.
 Proof.
-  intros Hn Hc (Hp & HS). destruct a as [|i]; cbn [step].
-  - destruct (g_prog s) as [|[k|k] r] eqn:E; [split; [rewrite E; exact Hp|rewrite E; exact HS] | |].
-    + cbn [count_pub] in *. split; [cbn [g_prog]; lia|]. cbn [g_prog g_subs]. apply Forall_map.
-      eapply Forall_impl; [|exact HS]. intros x (Hl & Hq). unfold deliver. destruct (s_live x) as [q|] eqn:El.
-      * rewrite Hc. cbn [push_live]. destruct (Nat.ltb_spec (length q) cap) as [Hlt|Hge]; [|lia].
-        cbn [s_lag s_live]. rewrite Hl. split; [reflexivity|]. rewrite app_length. cbn [length]. lia.
-      * split; [exact Hl|]. rewrite El. exact I.
-    + cbn [count_pub g_prog g_subs] in *. split; [exact Hp|exact HS].
-  - cbn [g_prog g_subs]. split; [exact Hp|]. apply Forall_upd_nth; [|exact HS].
-    intros x (Hl & Hq). rewrite sub_step_lag. split; [exact Hl|]. apply sub_step_len; assumption.
+  intros Hb (Hl & Hq). unfold deliver. destruct (s_live x) as [q|] eqn:El.
+  - cbn [push_live]. destruct (Nat.ltb_spec (length q) cap) as [Hlt|Hge]; [|lia].
+    cbn [s_lag s_live]. rewrite Hl. split; [reflexivity|]. rewrite app_length. cbn [length]. lia.
+  - split; [exact Hl|]. rewrite El. exact I.
 Qed.
+
+Lemma LInv_weaken b s : LInv b s -> LInv (S b) s.
+Proof.
+  intros (Hp & HS). split; [lia|]. eapply Forall_impl; [|exact HS]. intros x (Hl & Hq). split; [exact Hl|].
+  destruct (s_live x); [lia|exact I].
+Qed.
+
+(* producer and subscriber steps keep the bound; a foreign frame raises it by one *)
+Lemma LInv_step c cap b s a : c_cap c = Some cap -> b + count_other [a] <= cap -> LInv b s ->
+  LInv (b + count_other [a]) (step c s a).
+Proof.
+  intros Hc Hb (Hp & HS). destruct a as [|i|]; cbn [count_other] in *; cbn [step].
+  - replace (b + 0) with b in * by lia.
+    destruct (g_prog s) as [|[k|k] r] eqn:E; [split; [rewrite E; exact Hp|rewrite E; exact HS] | |].
+    + cbn [count_pub] in *. split; [cbn [g_prog]; lia|]. cbn [g_prog g_subs]. apply Forall_map.
+      eapply Forall_impl; [|exact HS]. intros x Hx. rewrite Hc. apply LInv_deliver; [exact Hb|exact Hx].
+    + cbn [count_pub g_prog g_subs] in *. split; [exact Hp|exact HS].
+  - replace (b + 0) with b in * by lia. cbn [g_prog g_subs]. split; [exact Hp|]. apply Forall_upd_nth; [|exact HS].
+    intros x (Hl & Hq). rewrite sub_step_lag. split; [exact Hl|]. apply sub_step_len; assumption.
+  - replace (b + 1) with (S b) in * by lia. split; [cbn [g_prog]; lia|]. cbn [g_prog g_subs]. apply Forall_map.
+    eapply Forall_impl; [|exact HS]. intros x (Hl & Hq). rewrite Hc.
+    apply LInv_deliver; [exact Hb|]. split; [exact Hl|]. destruct (s_live x); [lia|exact I].
+Qed.
+
+Lemma count_other_cons a l : count_other (a :: l) = count_other [a] + count_other l.
+Proof. destruct a; cbn [count_other]; lia. Qed.
 
 Lemma LInv_init c n m : LInv n (init c n m).
 Proof.
@@ -302,17 +359,21 @@ Proof.
   - cbn [init g_subs]. apply Forall_forall. intros x Hx. apply repeat_spec in Hx. subst x. split; [reflexivity|exact I].
 Qed.
 
-Lemma LInv_run c cap n sched : n <= cap -> c_cap c = Some cap -> forall s, LInv n s -> LInv n (run c sched s).
+Lemma LInv_run c cap sched : c_cap c = Some cap ->
+  forall b s, b + count_other sched <= cap -> LInv b s -> LInv (b + count_other sched) (run c sched s).
 Proof.
-  intros Hn Hc. induction sched as [|a l IH]; intros s H; [exact H|]. cbn [run fold_left].
-  apply IH. eapply LInv_step; eauto.
+  intros Hc. induction sched as [|a l IH]; intros b s Hb H.
+  - cbn [count_other run fold_left]. replace (b + 0) with b by lia. exact H.
+  - rewrite run_cons. rewrite count_other_cons in *. replace (b + (count_other [a] + count_other l)) with
+      ((b + count_other [a]) + count_other l) by lia.
+    apply IH; [lia|]. apply (LInv_step c cap); [exact Hc|lia|exact H].
 Qed.
 
 Theorem lag_bound : forall (c : cfg) (cap n m : nat) (sched : list actor),
-  n <= cap -> any_lag (run (with_cap c (Some cap)) sched (init (with_cap c (Some cap)) n m)) = false.
+  n + count_other sched <= cap -> any_lag (run (with_cap c (Some cap)) sched (init (with_cap c (Some cap)) n m)) = false.
 Proof.
   intros c cap n m sched Hn.
-  destruct (LInv_run (with_cap c (Some cap)) cap n sched Hn eq_refl _ (LInv_init (with_cap c (Some cap)) n m)) as (_ & HS).
+  destruct (LInv_run (with_cap c (Some cap)) cap sched eq_refl n _ Hn (LInv_init (with_cap c (Some cap)) n m)) as (_ & HS).
   unfold any_lag. destruct (existsb s_lag _) eqn:E; [|reflexivity].
   apply existsb_exists in E. destruct E as (x & Hx & Hl). rewrite Forall_forall in HS.
   destruct (HS x Hx) as (Hf & _). congruence.
@@ -343,7 +404,7 @@ Proof.
 Qed.
 
 Corollary exactly_once_small : forall (c : cfg) (cap : nat), cfg_ok c = true ->
-  forall (n m : nat) (sched : list actor) (i : nat) (x : sub), n <= cap ->
+  forall (n m : nat) (sched : list actor) (i : nat) (x : sub), n + count_other sched <= cap ->
   let cb := with_cap c (Some cap) in
   let fin := run cb sched (init cb n m) in
   nth_error (g_subs fin) i = Some x -> attached x = true ->
@@ -411,6 +472,14 @@ Lemma demo_mid_run :
   /\ map attached (g_subs (final okc 3 3 (firstn 7 demo_sched))) = [true; true; false]
   /\ map (delivered okc) (g_subs (final okc 3 3 (firstn 7 demo_sched))) = [[0; 1]; [0; 1]; []].
 Proof. vm_compute. repeat split. discriminate. Qed.
+(* a shared channel: frames of other streams (AO) interleaved everywhere, capacity 4 *)
+Definition demo_shared_sched : list actor := [AO; AP; AS 0; AO; AP; AS 1; AP; AO; AS 0; AS 1; AP; AS 0; AP; AO; AP; AS 2; AS 2].
+Lemma demo_shared :
+  NoLag (final (code_cfg (Some 7)) 3 3 demo_shared_sched)
+  /\ g_prog (final (code_cfg (Some 7)) 3 3 demo_shared_sched) = []
+  /\ map (delivered (code_cfg (Some 7))) (g_subs (final (code_cfg (Some 7)) 3 3 demo_shared_sched)) = [[0; 1; 2]; [0; 1; 2]; [0; 1; 2]]
+  /\ count_other demo_shared_sched = 4.
+Proof. vm_compute. repeat split. Qed.
 Lemma demo_nolag :
   NoLag (final (code_cfg (Some 3)) 3 3 demo_sched)
   /\ map attached (g_subs (final (code_cfg (Some 3)) 3 3 demo_sched)) = [true; true; true].
@@ -444,7 +513,7 @@ Proof.
 Qed.
 
 Theorem lag_bound_thm : forall (c : cfg) (cap n m : nat) (sched : list actor),
-  c_cap c = Some cap -> n <= cap -> NoLag (final c n m sched).
+  c_cap c = Some cap -> n + count_other sched <= cap -> NoLag (final c n m sched).
 Proof.
   intros c cap n m sched H4 Hn. rewrite <- (with_cap_same c (Some cap) H4). exact (lag_bound c cap n m sched Hn).
 Qed.
@@ -477,7 +546,7 @@ Qed.
 
 Theorem short_stream_kinds : forall (l : list kind_orders), wf_kinds l = true ->
   forall (k : kind_orders), In k l ->
-  forall (n m : nat) (sched : list actor) (i : nat) (x : sub), n <= kind_cap k ->
+  forall (n m : nat) (sched : list actor) (i : nat) (x : sub), n + count_other sched <= kind_cap k ->
   nth_error (g_subs (final (kind_code_cfg k) n m sched)) i = Some x -> attached x = true ->
   ExactlyOnce (kind_code_cfg k) n (final (kind_code_cfg k) n m sched) x.
 Proof.
